@@ -8,7 +8,7 @@ use serde::{Deserialize, Serialize};
 use soroban_sdk::{contract, contractimpl, testutils::Ledger as _, vec as svec, xdr::ToXdr, Address, Bytes, BytesN, Env, Map, String as SString, Vec};
 use std::collections::{BTreeMap, BTreeSet};
 use stellar_tokens::rwa::{
-    claim_issuer::{self as ci, Ed25519Verifier, SignatureVerifier},
+    claim_issuer::{self as ci, Ed25519Verifier, Secp256k1Verifier, Secp256r1Verifier, SignatureVerifier},
     claim_topics_and_issuers::storage as cti,
     identity_claims::{self as ic, Claim},
     identity_registry_storage::{self as irs, CountryData, CountryRelation, IdentityType, IndividualCountryRelation},
@@ -65,11 +65,14 @@ pub struct Issuer;
 #[contractimpl]
 impl Issuer {
     pub fn is_claim_valid(e: &Env, identity: Address, claim_topic: u32, scheme: u32, sig_data: Bytes, claim_data: Bytes) {
-        if scheme != 101 {
-            panic!("unsupported scheme");
-        }
-        let sd = Ed25519Verifier::extract_signature_data(e, &sig_data);
-        if !ci::is_key_allowed_for_topic(e, &sd.public_key.clone().into(), scheme, claim_topic) {
+        // 101 ed25519, 102 secp256r1, 103 secp256k1 — each through the library's verifier for that scheme
+        let key: Bytes = match scheme {
+            101 => Ed25519Verifier::extract_signature_data(e, &sig_data).public_key.into(),
+            102 => Secp256r1Verifier::extract_signature_data(e, &sig_data).public_key.into(),
+            103 => Secp256k1Verifier::extract_signature_data(e, &sig_data).public_key.into(),
+            _ => panic!("unsupported scheme"),
+        };
+        if !ci::is_key_allowed_for_topic(e, &key, scheme, claim_topic) {
             panic!("key not allowed for topic");
         }
         if ci::is_claim_expired(e, &claim_data) {
@@ -78,15 +81,27 @@ impl Issuer {
         if ci::is_claim_revoked(e, &identity, claim_topic, &claim_data) {
             panic!("claim revoked");
         }
-        let msg = Ed25519Verifier::build_message(e, &identity, claim_topic, &claim_data);
-        Ed25519Verifier::verify(e, &msg, &sd);
+        match scheme {
+            101 => {
+                let sd = Ed25519Verifier::extract_signature_data(e, &sig_data);
+                Ed25519Verifier::verify(e, &Ed25519Verifier::build_message(e, &identity, claim_topic, &claim_data), &sd)
+            }
+            102 => {
+                let sd = Secp256r1Verifier::extract_signature_data(e, &sig_data);
+                Secp256r1Verifier::verify(e, &Secp256r1Verifier::build_message(e, &identity, claim_topic, &claim_data), &sd)
+            }
+            _ => {
+                let sd = Secp256k1Verifier::extract_signature_data(e, &sig_data);
+                Secp256k1Verifier::verify(e, &Secp256k1Verifier::build_message(e, &identity, claim_topic, &claim_data), &sd)
+            }
+        }
     }
-    pub fn allow_key(e: &Env, pk: Bytes, registry: Address, topic: u32) { ci::allow_key(e, &pk, &registry, 101, topic) }
-    pub fn remove_key(e: &Env, pk: Bytes, registry: Address, topic: u32) { ci::remove_key(e, &pk, &registry, 101, topic) }
+    pub fn allow_key(e: &Env, pk: Bytes, registry: Address, scheme: u32, topic: u32) { ci::allow_key(e, &pk, &registry, scheme, topic) }
+    pub fn remove_key(e: &Env, pk: Bytes, registry: Address, scheme: u32, topic: u32) { ci::remove_key(e, &pk, &registry, scheme, topic) }
     pub fn revoke(e: &Env, identity: Address, topic: u32, data: Bytes, revoked: bool) { ci::set_claim_revoked(e, &identity, topic, &data, revoked) }
     pub fn bump(e: &Env, identity: Address, topic: u32) { ci::invalidate_claim_signatures(e, &identity, topic) }
     pub fn nonce(e: &Env, identity: Address, topic: u32) -> u32 { ci::get_current_nonce_for(e, &identity, topic) }
-    pub fn key_allowed(e: &Env, pk: Bytes, topic: u32) -> bool { ci::is_key_allowed_for_topic(e, &pk, 101, topic) }
+    pub fn key_allowed(e: &Env, pk: Bytes, scheme: u32, topic: u32) -> bool { ci::is_key_allowed_for_topic(e, &pk, scheme, topic) }
 }
 
 #[derive(Clone, Copy, Debug, Serialize, Deserialize, PartialEq)]
@@ -108,7 +123,16 @@ pub enum Step {
     Verify { inv: usize },
 }
 #[derive(Clone, Debug, Serialize, Deserialize)]
-pub struct Cfg { pub investors: usize, pub issuers: usize }
+pub struct Cfg {
+    pub investors: usize,
+    pub issuers: usize,
+    /// the two signing keys of the run (step key 0 / 1): 0, 1 = ed25519 · 2 = secp256r1 · 3 = secp256k1
+    #[serde(default = "default_keys")]
+    pub keys: [usize; 2],
+}
+fn default_keys() -> [usize; 2] {
+    [0, 1]
+}
 
 #[derive(Clone, Debug)]
 struct Held { key: usize, nonce: u32, valid_until: u64, data: u8 }
@@ -147,7 +171,7 @@ impl Check for Identity {
         }
     }
     fn components(&self) -> serde_json::Value {
-        serde_json::json!({"real": ["identity_verifier::storage::{verify_identity, validate_claim}", "claim_topics_and_issuers::storage", "identity_registry_storage (add_identity, stored_identity)", "identity_claims (add/remove/get)", "claim_issuer helpers: key registry, expiry, revocation, nonce, Ed25519Verifier", "host ed25519_verify"], "stub": ["none (signatures are produced with ed25519-dalek in the harness)"]})
+        serde_json::json!({"real": ["identity_verifier::storage::{verify_identity, validate_claim}", "claim_topics_and_issuers::storage", "identity_registry_storage (add_identity, stored_identity)", "identity_claims (add/remove/get)", "claim_issuer helpers: key registry, expiry, revocation, nonce, Ed25519Verifier, Secp256r1Verifier, Secp256k1Verifier", "host ed25519_verify, secp256r1_verify, secp256k1_recover"], "stub": ["none (signatures are produced with ed25519-dalek, p256 and k256 in the harness)"]})
     }
     fn property_of(&self, check: &str) -> std::vec::Vec<&'static str> {
         // the identity-claims registry clauses are shared with C20
@@ -167,10 +191,10 @@ impl Check for Identity {
         true
     }
     fn probes(&self, _prop: &str) -> std::vec::Vec<&'static str> {
-        vec!["probe.rejected", "probe.required_topic_without_issuer", "probe.verified", "probe.verified_with_some_issuer_lacking_claim", "probe.verify_exactly_at_valid_until", "probe.verify_one_before_valid_until", "probe.verify_with_unexpired_claim_revoked_long_ago"]
+        vec!["probe.rejected", "probe.required_topic_without_issuer", "probe.verified", "probe.verified_with_some_issuer_lacking_claim", "probe.verify_exactly_at_valid_until", "probe.verify_one_before_valid_until", "probe.verify_with_unexpired_claim_revoked_long_ago", "probe.claim_signed_ed25519", "probe.claim_signed_secp256r1", "probe.claim_signed_secp256k1", "probe.verified_secp256r1", "probe.verified_secp256k1"]
     }
     fn generate(&self, rng: &mut Rng, tier: Tier) -> (Cfg, std::vec::Vec<Step>) {
-        let cfg = Cfg { investors: 2, issuers: 2 + rng.below(2) as usize };
+        let cfg = Cfg { investors: 2, issuers: 2 + rng.below(2) as usize, keys: *rng.pick(&[[0, 1], [0, 2], [0, 3], [2, 3], [3, 2], [2, 1], [3, 1]]) };
         let nsteps = if tier == Tier::Quick { 30 + rng.below(40) } else { 30 + rng.below(80) } as usize;
         let mut steps = vec![];
         let mut topics: BTreeSet<u32> = BTreeSet::new();
@@ -276,7 +300,35 @@ impl Check for Identity {
         }
         let issuers: std::vec::Vec<Address> = (0..cfg.issuers).map(|_| e.register(Issuer, ())).collect();
         let sks: std::vec::Vec<SigningKey> = (0..2u8).map(|k| SigningKey::from_bytes(&[k + 11; 32])).collect();
-        let pk = |k: usize| Bytes::from_array(e, &sks[k].verifying_key().to_bytes());
+        let r1 = p256::ecdsa::SigningKey::from_slice(&[21u8; 32]).unwrap();
+        let k1 = k256::ecdsa::SigningKey::from_slice(&[23u8; 32]).unwrap();
+        let scheme_of = |k: usize| -> u32 { [101u32, 101, 102, 103][cfg.keys[k]] };
+        let pk = |k: usize| -> Bytes {
+            match cfg.keys[k] {
+                2 => Bytes::from_slice(e, r1.verifying_key().to_encoded_point(false).as_bytes()),
+                3 => Bytes::from_slice(e, k1.verifying_key().to_encoded_point(false).as_bytes()),
+                x => Bytes::from_array(e, &sks[x].verifying_key().to_bytes()),
+            }
+        };
+        // signature part of the signature data for each scheme (after the public key)
+        let sign = |k: usize, msg: &Bytes, buf: &[u8]| -> std::vec::Vec<u8> {
+            match cfg.keys[k] {
+                2 => {
+                    use p256::ecdsa::signature::hazmat::PrehashSigner;
+                    let d = e.crypto().sha256(msg).to_array();
+                    let sig: p256::ecdsa::Signature = r1.sign_prehash(&d).unwrap();
+                    sig.normalize_s().unwrap_or(sig).to_bytes().to_vec()
+                }
+                3 => {
+                    let d = e.crypto().keccak256(msg).to_array();
+                    let (sig, rid) = k1.sign_prehash_recoverable(&d).unwrap();
+                    let mut v = sig.to_bytes().to_vec();
+                    v.extend_from_slice(&(rid.to_byte() as u32).to_be_bytes());
+                    v
+                }
+                x => sks[x].sign(buf).to_bytes().to_vec(),
+            }
+        };
         let data_of = |d: u8, created: u64, until: u64| -> Bytes {
             let mut b = Bytes::new(e);
             b.extend_from_array(&created.to_be_bytes());
@@ -297,12 +349,12 @@ impl Check for Identity {
                 Step::RemoveIssuer { i } => { let g = rc.try_remove_issuer(&issuers[*i]).is_ok(); let x = m.trusted.remove(i).is_some(); outcome = Some(("remove_issuer", g, x)); }
                 Step::UpdateIssuer { i, ts } => { let g = rc.try_update_issuer(&issuers[*i], &sv(ts)).is_ok(); let x = valid_ts(ts, &m.topics) && m.trusted.contains_key(i); if x { m.trusted.insert(*i, ts.iter().cloned().collect()); } outcome = Some(("update_issuer", g, x)); }
                 Step::AllowKey { i, key, t } => {
-                    let g = IssuerClient::new(e, &issuers[*i]).try_allow_key(&pk(*key), &reg, t).is_ok();
+                    let g = IssuerClient::new(e, &issuers[*i]).try_allow_key(&pk(*key), &reg, &scheme_of(*key), t).is_ok();
                     let x = m.trusted.get(i).map(|ts| ts.contains(t)).unwrap_or(false) && !m.keys.contains(&(*i, *key, *t));
                     if x { m.keys.insert((*i, *key, *t)); }
                     outcome = Some(("allow_key", g, x));
                 }
-                Step::RemoveKey { i, key, t } => { let g = IssuerClient::new(e, &issuers[*i]).try_remove_key(&pk(*key), &reg, t).is_ok(); let x = m.keys.remove(&(*i, *key, *t)); outcome = Some(("remove_key", g, x)); }
+                Step::RemoveKey { i, key, t } => { let g = IssuerClient::new(e, &issuers[*i]).try_remove_key(&pk(*key), &reg, &scheme_of(*key), t).is_ok(); let x = m.keys.remove(&(*i, *key, *t)); outcome = Some(("remove_key", g, x)); }
                 Step::Revoke { i, inv, t, data, on } => {
                     // revoke every claim data this investor could hold with that payload: use the held one's validity if any
                     let until = m.held.get(&(*inv, *i, *t)).filter(|h| h.data == *data).map(|h| h.valid_until);
@@ -346,12 +398,13 @@ impl Check for Identity {
                     msg.append(&if *tamper == Tamper::Data { data_of(data.wrapping_add(1), T0, until) } else { cd.clone() });
                     let mut buf = std::vec::Vec::new();
                     for b in msg.iter() { buf.push(b); }
-                    let mut sig = sks[*key].sign(&buf).to_bytes();
+                    let mut sig = sign(*key, &msg, &buf);
                     if *tamper == Tamper::Sig { sig[3] ^= 0x40; }
                     let mut sd = pk(*key);
-                    sd.extend_from_array(&sig);
+                    sd.extend_from_slice(&sig);
+                    st.hit(["probe.claim_signed_ed25519", "probe.claim_signed_ed25519", "probe.claim_signed_secp256r1", "probe.claim_signed_secp256k1"][cfg.keys[*key]]);
                     if *tamper != Tamper::None { st.hit("fault.tampered_claim"); }
-                    let g = IdentClient::new(e, &idents[*inv]).try_add_claim(t, &101, &issuers[*i], &sd, &cd, &SString::from_str(e, "u")).is_ok();
+                    let g = IdentClient::new(e, &idents[*inv]).try_add_claim(t, &scheme_of(*key), &issuers[*i], &sd, &cd, &SString::from_str(e, "u")).is_ok();
                     let x = *tamper == Tamper::None && m.keys.contains(&(*i, *key, *t)) && m.now < until && !m.revoked.contains(&(*i, *inv, *t, *data, until));
                     if x { m.held.insert((*inv, *i, *t), Held { key: *key, nonce: cur, valid_until: until, data: *data }); }
                     outcome = Some(("add_claim", g, x));
@@ -361,6 +414,11 @@ impl Check for Identity {
                     let x = m.verified(*inv);
                     st.hit(if g { "probe.verified" } else { "probe.rejected" });
                     if g {
+                        for (k, h) in m.held.iter().filter(|(k, _)| k.0 == *inv) {
+                            if m.topics.contains(&k.2) && m.claim_ok(k.1, k.0, k.2, h) {
+                                match cfg.keys[h.key] { 2 => st.hit("probe.verified_secp256r1"), 3 => st.hit("probe.verified_secp256k1"), _ => {} }
+                            }
+                        }
                         // was some required topic satisfied by an issuer that is not the first one listed for it?
                         for t in &m.topics {
                             let lst: std::vec::Vec<usize> = m.trusted.iter().filter(|(_, ts)| ts.contains(t)).map(|(i, _)| *i).collect();
@@ -422,7 +480,7 @@ impl Check for Identity {
                 let icl = IssuerClient::new(e, iss);
                 for key in 0..2usize {
                     for t in 0..4u32 {
-                        let real = icl.try_key_allowed(&pk(key), &t);
+                        let real = icl.try_key_allowed(&pk(key), &scheme_of(key), &t);
                         let want = m.keys.contains(&(ix, key, t));
                         if real != Ok(Ok(want)) {
                             self.clause(st, &mut parked, violation("issuer.key_allowed_eq_model", "is_key_allowed_for_topic", i_step, format!("issuer {ix} key {key} topic {t}: {real:?}, model {want} after {s:?}; keys {:?}", m.keys)))?;
